@@ -77,7 +77,7 @@ func runEnc(out *lib.Out, id, codecName, holder string, v *lib.Val) {
 	var n datamodel.Node
 	err := lib.Safely(func() error {
 		var e error
-		n, e = lib.BuildHolder(holder, v)
+		n, e = lib.JsonBuildHolder(holder, v)
 		return e
 	})
 	if err != nil {
@@ -220,12 +220,31 @@ func main() {
 	for _, ln := range []int{0, 1, 2, 3, 4, 5, 6, 7, 8, 9, 10, 11, 12, 13, 31, 32, 33, 300} {
 		runEnc(out, next(), "dagjson", "basic", lib.Bytes(rng.BytesN(ln)))
 	}
+	// ---- corpus: bytes values in every bytes holder (streaming nodes with short reads, bindnode []byte),
+	//      at the root and nested in a map / list, at lengths around base64 quanta and chunk sizes
+	for _, ln := range []int{0, 1, 2, 3, 4, 5, 6, 7, 8, 9, 10, 11, 12, 13, 31, 32, 33, 100, 300, 3071, 3072, 3073, 3074, 7000} {
+		b := lib.Bytes(rng.BytesN(ln))
+		shapes := []*lib.Val{b,
+			lib.Map(lib.Entry{K: "b", V: b}, lib.Entry{K: "a", V: lib.Bytes(rng.BytesN(5))}),
+			lib.List(lib.Bytes("ab"), b, lib.Bytes("cdefg")),
+			lib.Map(lib.Entry{K: "/", V: b}),
+			lib.Map(lib.Entry{K: "x", V: lib.List(b, lib.Int(1))}, lib.Entry{K: "/", V: lib.Map(lib.Entry{K: "bytes", V: b})})}
+		for _, sh := range shapes {
+			base := next()
+			runEnc(out, base, "dagjson", "basic", sh)
+			for i, h := range lib.JsonBytesHolders(rng, sh) {
+				runEnc(out, fmt.Sprintf("%s.h%d", base, i), "dagjson", h, sh)
+			}
+		}
+	}
+	runEnc(out, next(), "dagjson", "lbmulti1", lib.Bytes("abcdefg"))
+	runEnc(out, next(), "json", "lbshort1", lib.List(lib.Bytes("abc")))
 	// ---- corpus: the neighbourhood of the reserved shapes, in several holders and orders
 	for _, v := range lib.JsonReservedNeighbourhood(rng) {
 		base := next()
 		runEnc(out, base, "dagjson", "basic", v)
 		runEnc(out, base+".p", "dagjson", "basic", rng.Permuted(v))
-		hs := lib.HoldersFor(v)
+		hs := append(lib.HoldersFor(v), lib.JsonBytesHolders(rng, v)...)
 		runEnc(out, base+".h", "dagjson", hs[rng.Intn(len(hs))], v)
 		if rng.Intn(4) == 0 {
 			runEnc(out, base+".j", "json", "basic", v)
@@ -296,6 +315,10 @@ func main() {
 		}
 		base := next()
 		holders := lib.HoldersFor(v)
+		if bh := lib.JsonBytesHolders(rng, v); len(bh) > 0 {
+			// a value with bytes: the plain holders plus each kind of bytes holder, equally likely
+			holders = append(holders, bh...)
+		}
 		for p := 0; p < 3; p++ {
 			pv := v
 			if p > 0 {
